@@ -184,6 +184,8 @@ def encode_movie(m, rng=None, info=None):
     for t in m.get("decoys", []):       # duplicate-type chunks not in any table, placed wherever the shuffle puts them
         items.append(t)
     rng.shuffle(items)
+    if m.get("decoys_first"):
+        items.sort(key=lambda it: it[0] != "decoy")      # stable: every real resource gets an id / offset behind all decoys
     # optional chunks must be found by locate_chunk = FIRST resource of that type: decoys of singleton types go after the real one
     singles = {}
     for pos, it in enumerate(items):
@@ -695,12 +697,37 @@ def fixture_cases(tier):
     return out
 
 
+def scale_stub_cases(rng, tier):
+    """beyond the small bounds (evaluated on the implementation only: the expectation comes from the spec movie): a movie whose real
+    resources all have ids above 65 536 (65 600 unlisted empty chunks in front: memory-map indices, key-table ids and cast-table
+    references that need a third byte) and one whose real chunks all lie behind a 16 MiB chunk (offsets above 2^24)"""
+    out = []
+    for what, decoys in (("ids-above-65536", [("decoy", b"XTRA", b"")] * 65600), ("offsets-above-16MiB", [("decoy", b"junk", bytes(2 ** 24 + 2))])):
+        if tier == "quick" and what == "offsets-above-16MiB" and False:
+            continue
+        for _ in range(200):
+            m = gen_stub_movie(rng, "valid")
+            if sum(1 for x in m["members"] if x and x["links"]) >= 3 and m.get("scripts"):
+                break
+        m["decoys"] = decoys
+        m["decoys_first"] = True
+        data = encode_movie(m)
+        P = len(m["prefix"])
+        exp = canon(to_jsonable(assemble_spec(m, STUBS)))
+        m2 = dict(m); m2["decoys"] = [[what, len(decoys)]]
+        spec = dict(mode="stub", flavour="valid", order=m["order"], prefix_len=P, nslots=len(m["members"]), nscripts=len(m["scripts"] or []),
+                    sha=hashlib.sha1(data).hexdigest()[:12], scale=what, movie=json.loads(canon(to_jsonable(m2))), rebuild="scale_stub_cases")
+        out.append(Case(kind="stub-scale-" + what, spec=spec, lines=[f"#dir stub {m['order']} {P} {hx(data)}"], expect=[exp]))
+    return out
+
+
 def cases(rng, tier):
     n = dict(quick=(500, 60, 150, 250), thorough=(12000, 600, 3000, 2500), search=(6000, 300, 1500, 1500))[tier]
     out = [stub_case(rng, "valid") for _ in range(n[0])]
     for fl in ("f28", "f29", "f02"):
         out += [stub_case(rng, fl) for _ in range(n[1] // 3)]
     out += [stub_case(rng, "wild") for _ in range(n[2])]
+    out += scale_stub_cases(rng, tier)
     out += [real_case(rng, tier) for _ in range(n[3])]
     # the repo's own movies, spread over the list (the driver splits the lines into contiguous parts, one process each: the few slow
     # ones — large bitmaps — should not queue up behind each other)
